@@ -59,7 +59,7 @@ def real_val(x):
     if isinstance(x, float):
         if math.isnan(x) or math.isinf(x):
             raise OutsideSubset("non-finite float constant %r" % (x,))
-        return z3.RealVal(str(fractions.Fraction(repr(x))))
+        return z3.RealVal(str(fractions.Fraction(repr(float(x)))))
     try:
         import numpy as np
         if isinstance(x, np.floating):
